@@ -434,3 +434,38 @@ Proof.
   - destruct (decide (FWakeWith d w = fr0)) as [<-|Hne]; [by eapply Hww|].
     apply cover_iff. right; right. exists c, d, w. split; [by eapply fsat_keep_rest|]. split; [by rewrite (effw_same s s')|]. apply Hgd; [|done]. apply np_pos_fsat. exists c, (FWakeWith d w). split; [done|]. cbn. by apply bool_decide_eq_true.
 Qed.
+
+Lemma tview_mono_gd s s' :
+  s'.(qs) = s.(qs) -> (forall e, hsusp s = Some e -> hsusp s' = Some e) ->
+  (forall e w, unfreg s e w = true -> unfreg s' e w = true) ->
+  (forall w, (w = WQueue \/ exists c, w = WThread c) -> np (is_wake w) s <= np (is_wake w) s') ->
+  (forall c, isrunner s c -> unp s c = true -> unp s' c = true) ->
+  (forall e d, np (carries d) s > 0 -> gd s e d = true -> gd s' e d = true) ->
+  tview s s'.
+Proof.
+  intros Hq Hh Hu Hw Hp Hd. split; rewrite ?Hq; try done.
+  - unfold awoken. by rewrite Hq.
+  - intros e _. unfold gq. rewrite !orb_true_iff. intros [?|?]; left; [left; by apply Hu|right; eapply posb_mono; [apply Hw; by left|done] ].
+  - intros c e. unfold gt. rewrite !orb_true_iff. intros [?|?]; left; [left; by apply Hu|right; eapply posb_mono; [apply Hw; right; by eexists|done] ].
+  - intros c Hc _. by apply Hp.
+Qed.
+
+(* as tview_mono, but a registration may be replaced by an in-flight wake (the event fires) *)
+Lemma tview_swap s s' :
+  s'.(qs) = s.(qs) -> (forall e, hsusp s = Some e -> hsusp s' = Some e) ->
+  (forall e w, unfreg s e w = true -> unfreg s' e w = true \/ posb (np (is_wake w) s') = true) ->
+  (forall w, np (is_wake w) s <= np (is_wake w) s') ->
+  (forall c, isrunner s c -> unp s c = true -> unp s' c = true) -> (forall d, dw_woken s d = true -> dw_woken s' d = true) ->
+  tview s s'.
+Proof.
+  intros Hq Hh Hu Hw Hp Hd.
+  assert (Hor : forall e w, unfreg s e w || posb (np (is_wake w) s) = true -> unfreg s' e w || posb (np (is_wake w) s') = true).
+  { intros e w. rewrite !orb_true_iff. intros [H|H]; [by apply Hu|right; eapply posb_mono; [apply Hw|done] ]. }
+  split; rewrite ?Hq; try done.
+  - unfold awoken. by rewrite Hq.
+  - intros e _ H. left. by apply Hor.
+  - intros c e H. left. by apply Hor.
+  - intros c Hc _. by apply Hp.
+  - intros e d _. unfold gd. rewrite orb_true_iff. intros [H|H]; [|rewrite (Hd _ H); by rewrite orb_true_r].
+    by rewrite (Hor _ _ H).
+Qed.
